@@ -8,7 +8,20 @@
          w       walk begin..end and rbegin..rend    D  paths to every node (steered find)
    After the last op: walk, paths, zix_tree_free.
    Output: "M <observable tokens> || <structural tokens>", "S <observable tokens by the spec>",
-           "X <rotations of the case: i|r + codes per call, comma separated>" (statistics only). *)
+           "X <rotations of the case: i|r + codes per call, comma separated>" (statistics only).
+
+   Two models run side by side on every case: the functional tree (AvlModel.state) and the pointer-level
+   heap (AvlHeapModel.hstate: nodes with parent/left/right links, the statement-by-statement transcription
+   of tree.c).  Everything about iteration is computed FROM THE HEAP MODEL: the n<id>/p<id> structural
+   tokens (h_iter_next/h_iter_prev), the walks (h_walk_fwd/h_walk_bwd) and the parent-link sweep
+       L<id>next.<id>next...../<id>prev.<id>prev....        written  L0>1.1>2.2>-/0>-.1>0.2>1
+   emitted after every executed insert/remove (any status; not after r:skip) while the tree has at most
+   [sweep_limit] nodes: for every live node in ascending id order the node reached by one iter_next
+   (before the '/') and one iter_prev (after it) from the iterator HELD since the node's insertion; '-' =
+   end/rend.  Whatever both models compute (statuses, iterators, size, rotation and comparison logs, walks,
+   next/prev of every node, the D paths: path_to by descent = h_path_up by climbing parent links, the whole
+   shape node by node in the sweep) is compared; a disagreement adds the structural token HEAPDIFF:<what>,
+   which the C line never contains.  A fuelled loop of the heap model running dry prints FUEL. *)
 module String = Stdlib.String
 module List = Stdlib.List
 module Array = Stdlib.Array
@@ -26,6 +39,25 @@ let status_name = function
   | AvlSpec.NOT_FOUND -> "NOTFOUND" | AvlSpec.BAD_ARG -> "BADARG"
 let opt_id = function Some z -> string_of_int (iz z) | None -> "-"
 let sorted_ints l = List.sort compare l
+let sweep_limit = 24      (* the same constant as SWEEP_LIMIT in harness/drv_c06.c *)
+let step_name = function
+  | AvlHeapModel.Fuel -> "FUEL" | AvlHeapModel.At None -> "-" | AvlHeapModel.At (Some z) -> string_of_int (iz z)
+let walk_name = function Some l -> dots (List.map iz l) | None -> "FUEL"
+
+let tid = function AvlModel.E -> None | AvlModel.N (i, _, _, _, _) -> Some i
+
+(* the heap holds exactly the nodes of the functional tree with the same fields, and every parent link
+   points to the node one level up *)
+let rec same_shape h par t =
+  match t with
+  | AvlModel.E -> true
+  | AvlModel.N (i, d, b, l, r) ->
+    (match AvlHeapModel.hget h i with
+     | None -> false
+     | Some n ->
+       n.AvlHeapModel.ndata = d && n.AvlHeapModel.nbal = b && n.AvlHeapModel.npar = par
+       && n.AvlHeapModel.nleft = tid l && n.AvlHeapModel.nright = tid r
+       && same_shape h (Some i) l && same_shape h (Some i) r)
 
 let () =
   iter_lines (fun line ->
@@ -34,31 +66,64 @@ let () =
     | pol :: ops ->
       let dup = (pol = "d1") in
       let st = ref AvlModel.init in
+      let hs = ref AvlHeapModel.hinit in
       let sp = ref (([], Z0) : AvlSpec.sstate) in
       let mo = Buffer.create 256 and ms = Buffer.create 256 and so = Buffer.create 256 in
       let rots = ref [] in
       let add b s = if Buffer.length b > 0 then Buffer.add_char b ' '; Buffer.add_string b s in
+      let diff what = add ms ("HEAPDIFF:" ^ what) in
       let key_of_id_model id =
         match AvlModel.lookup (zi id) !st.AvlModel.root with Some (_, (k, _)) -> iz k | None -> -1 in
       let msize () = iz !st.AvlModel.size in
       let ssize () = iz (AvlSpec.sp_size !sp) in
+      (* container fields of the two models *)
+      let check_state () =
+        if !hs.AvlHeapModel.hsize <> !st.AvlModel.size then diff "size";
+        if !hs.AvlHeapModel.hnextid <> !st.AvlModel.nextid then diff "nextid";
+        if !hs.AvlHeapModel.hroot <> tid !st.AvlModel.root then diff "root" in
+      (* the parent-link sweep: next and prev of every live node, from the heap model *)
+      let sweep () =
+        let h = !hs in
+        if iz h.AvlHeapModel.hsize <= sweep_limit then begin
+          let root = !st.AvlModel.root in
+          let live = List.sort_uniq compare (List.map (fun (i, _) -> iz i) h.AvlHeapModel.hp) in
+          let nx = List.map (fun i -> (i, AvlHeapModel.h_iter_next h (zi i))) live
+          and pv = List.map (fun i -> (i, AvlHeapModel.h_iter_prev h (zi i))) live in
+          let show l = String.concat "." (List.map (fun (i, r) -> Printf.sprintf "%d>%s" i (step_name r)) l) in
+          add ms (Printf.sprintf "L%s/%s" (show nx) (show pv));
+          if live <> sorted_ints (List.map iz (AvlModel.ids root)) then diff "sweep-live";
+          if List.exists (fun (i, r) -> r <> AvlHeapModel.At (AvlModel.tnext (zi i) root)) nx then diff "sweep-next";
+          if List.exists (fun (i, r) -> r <> AvlHeapModel.At (AvlModel.tprev (zi i) root)) pv then diff "sweep-prev";
+          if not (same_shape h.AvlHeapModel.hp None root && List.length h.AvlHeapModel.hp = List.length live)
+          then diff "sweep-shape"
+        end in
       let walk_tokens () =
         let root = !st.AvlModel.root in
-        let f = List.map iz (AvlModel.walk_fwd root) and b = List.map iz (AvlModel.walk_bwd root) in
+        let hf = AvlHeapModel.h_walk_fwd !hs and hb = AvlHeapModel.h_walk_bwd !hs in
+        if hf <> Some (AvlModel.walk_fwd root) then diff "walk-fwd";
+        if hb <> Some (AvlModel.walk_bwd root) then diff "walk-bwd";
+        let ids = function Some l -> List.map iz l | None -> [] in
+        let f = ids hf and b = ids hb in
         add mo (Printf.sprintf "w:%s/%s/%s/%s" (dots (List.map key_of_id_model f)) (dots (List.map key_of_id_model b))
                   (dots (sorted_ints f)) (dots (sorted_ints b)));
-        add ms (Printf.sprintf "W%s/%s" (dots f) (dots b));
+        add ms (Printf.sprintf "W%s/%s" (walk_name hf) (walk_name hb));
         let l = fst !sp in
         let ks = List.map (fun (_, (k, _)) -> iz k) l and is = List.map (fun (i, _) -> iz i) l in
         add so (Printf.sprintf "w:%s/%s/%s/%s" (dots ks) (dots (List.rev ks)) (dots (sorted_ints is)) (dots (sorted_ints is))) in
       let dump_tokens () =
         let root = !st.AvlModel.root in
+        let h = !hs in
+        let bad = ref false in
         let ps = List.map (fun id ->
-          match AvlModel.path_to id root with
+          let p = AvlModel.path_to id root in
+          (* the same path, obtained by climbing the parent links of the heap model *)
+          if AvlHeapModel.h_path_up (AvlHeapModel.fuel_of h) h.AvlHeapModel.hp id [] <> p then bad := true;
+          match p with
           | Some p -> Printf.sprintf "%d=%s" (iz id) (dots (List.map iz p))
           | None -> Printf.sprintf "%d=?" (iz id)) (AvlModel.walk_fwd root) in
         add mo (Printf.sprintf "D:h%d/%d" (iz (AvlModel.height root)) (msize ())); add so "*";
-        add ms ("D" ^ String.concat ";" ps) in
+        add ms ("D" ^ String.concat ";" ps);
+        if !bad then diff "path" in
       List.iter (fun tok ->
         let c = tok.[0] in
         let arg () = int_of_string (String.sub tok 1 (String.length tok - 1)) in
@@ -69,17 +134,30 @@ let () =
           let id = !st.AvlModel.nextid in
           let x = (zi k, id) in
           let lg = AvlModel.ins_log rank dup x !st.AvlModel.root in
-          let ((((s, it), st'), _), rc) = AvlModel.insert rank dup x o !st in
+          let ((((s, it), st'), o'), rc) = AvlModel.insert rank dup x o !st in
           st := st'; if rc <> [] then rots := !rots @ ["i" ^ dots (List.map iz rc)];
           add mo (Printf.sprintf "i:%s:%s:s%d" (status_name s) (opt_id it) (msize ()));
           add ms ("c" ^ dots (List.map iz lg));
+          (match AvlHeapModel.h_insert rank dup x o !hs with
+           | None -> diff "insert-fuel"
+           | Some (((((hs_, hit), h'), ho'), hrc), hlg) ->
+             hs := h';
+             if hs_ <> s then diff "insert-status";
+             if hit <> it then diff "insert-iter";
+             if ho' <> o' then diff "insert-oracle";
+             if hrc <> rc then diff "insert-rot";
+             if hlg <> lg then diff "insert-cmplog");
+          check_state ();
+          sweep ();
           let (((s2, it2), sp'), _) = AvlSpec.sp_insert rank dup x o !sp in
           sp := sp';
           add so (Printf.sprintf "i:%s:%s:s%d" (status_name s2) (opt_id it2) (ssize ()))
         | 'r' ->
           let id = arg () in
-          (match AvlModel.lookup (zi id) !st.AvlModel.root with
-           | None -> add mo "r:skip"; add ms "-"
+          let hl = AvlHeapModel.h_lookup !hs (zi id) in
+          let fl = AvlModel.lookup (zi id) !st.AvlModel.root in
+          (match hl with
+           | None -> add mo "r:skip"; add ms "-"; if fl <> hl then diff "lookup"
            | Some _ ->
              let cls = match AvlModel.node_class (zi id) !st.AvlModel.root with Some c -> iz c | None -> -1 in
              let is_root = (match !st.AvlModel.root with AvlModel.N (i, _, _, _, _) -> iz i = id | AvlModel.E -> false) in
@@ -87,7 +165,21 @@ let () =
              st := st'; if rc <> [] then rots := !rots @ ["r" ^ dots (List.map iz rc)];
              add mo (Printf.sprintf "r:%s:%s:s%d" (status_name s)
                        (String.concat "," (List.map (fun (i, _) -> Printf.sprintf "d%d@ok" (iz i)) dl)) (msize ()));
-             add ms (Printf.sprintf "k%d%s" cls (if is_root then "R" else "")));
+             add ms (Printf.sprintf "k%d%s" cls (if is_root then "R" else ""));
+             if fl <> hl then diff "lookup";
+             let h = !hs in
+             let hcls = (if AvlHeapModel.left h.AvlHeapModel.hp (zi id) = None then 0 else 1)
+                        + (if AvlHeapModel.right h.AvlHeapModel.hp (zi id) = None then 0 else 1) in
+             if hcls <> cls || (h.AvlHeapModel.hroot = Some (zi id)) <> is_root then diff "remove-class";
+             (match AvlHeapModel.h_remove (zi id) h with
+              | None -> diff "remove-fuel"
+              | Some ((h', hdl), hrc) ->
+                hs := h';
+                if s <> AvlSpec.SUCCESS then diff "remove-status";
+                if hdl <> dl then diff "remove-destroy";
+                if hrc <> rc then diff "remove-rot");
+             check_state ();
+             sweep ());
           (match AvlSpec.slookup (zi id) (fst !sp) with
            | None -> add so "r:skip"
            | Some _ ->
@@ -107,26 +199,40 @@ let () =
              add mo (Printf.sprintf "f:%s:-:s%d" (status_name s) (msize ()));
              add ms (Printf.sprintf "-:c%s" (dots (List.map iz lg))));
           add mo (Printf.sprintf "fc%d/%d" (List.length lg) (msize ())); add ms "-";
+          (match AvlHeapModel.h_tfind rank x !hs with
+           | None -> diff "find-fuel"
+           | Some ((hs_, hit), hlg) ->
+             if hs_ <> s then diff "find-status";
+             if hit <> it then diff "find-iter";
+             if hlg <> lg then diff "find-cmplog");
           (match AvlSpec.sfind rank x (fst !sp) with
            | Some (_, (k', _)) -> add so (Printf.sprintf "f:OK:%d:s%d" (iz k') (ssize ()))
            | None -> add so (Printf.sprintf "f:NOTFOUND:-:s%d" (ssize ())));
           add so "*"
         | 'g' ->
           let id = arg () in
-          (match AvlModel.lookup (zi id) !st.AvlModel.root with
+          let fl = AvlModel.lookup (zi id) !st.AvlModel.root in
+          (match fl with
            | Some (i, (k, _)) -> add mo (Printf.sprintf "g:%d.%d" (iz k) (iz i))
            | None -> add mo "g:skip");
           add ms "-";
+          if AvlHeapModel.h_lookup !hs (zi id) <> fl then diff "get";
           (match AvlSpec.slookup (zi id) (fst !sp) with
            | Some (i, (k, _)) -> add so (Printf.sprintf "g:%d.%d" (iz k) (iz i))
            | None -> add so "g:skip")
         | 'n' | 'p' ->
           let id = arg () in
-          (match AvlModel.lookup (zi id) !st.AvlModel.root with
+          let fl = AvlModel.lookup (zi id) !st.AvlModel.root in
+          let hl = AvlHeapModel.h_lookup !hs (zi id) in
+          (match hl with
            | Some _ ->
-             let r = if c = 'n' then AvlModel.tnext (zi id) !st.AvlModel.root else AvlModel.tprev (zi id) !st.AvlModel.root in
-             add mo (Printf.sprintf "%c:ok" c); add ms (opt_id r)
+             (* one step through the links of the heap model from the held iterator *)
+             let r = if c = 'n' then AvlHeapModel.h_iter_next !hs (zi id) else AvlHeapModel.h_iter_prev !hs (zi id) in
+             let fr = if c = 'n' then AvlModel.tnext (zi id) !st.AvlModel.root else AvlModel.tprev (zi id) !st.AvlModel.root in
+             add mo (Printf.sprintf "%c:ok" c); add ms (step_name r);
+             if r <> AvlHeapModel.At fr then diff (if c = 'n' then "next" else "prev")
            | None -> add mo (Printf.sprintf "%c:skip" c); add ms "-");
+          if fl <> hl then diff "lookup";
           (match AvlSpec.slookup (zi id) (fst !sp) with
            | Some _ -> add so (Printf.sprintf "%c:ok" c)
            | None -> add so (Printf.sprintf "%c:skip" c))
